@@ -20,10 +20,26 @@ CMD = {1: "kill-line", 2: "kill-word(M-d)", 3: "kill-word(C-Delete)", 4: "C-w", 
        6: "unix-line-discard", 7: "yank", 8: "yank-pop", 9: "set-mark", 10: "copy-region(M-w)",
        11: "forward-char", 12: "backward-char", 13: "beginning-of-line", 14: "end-of-line",
        15: "self-insert", 16: "C-g", 17: "yank(C-x r y)", 18: "kill-region(C-x r k)", 19: "set-cursor",
+       21: "cursor-position-report",
        31: "vi-x", 32: "vi-X", 33: "vi-D", 34: "vi-dd", 35: "vi-yy", 36: "vi-p", 37: "vi-P",
        38: 'vi-"rp', 39: 'vi-"rP', 40: "vi-visual"}
 VKEY = {0: "d", 1: "y", 2: "x", 3: '"rd', 4: '"ry'}
 INSERT_ONLY = {1, 2, 3, 5, 6, 7, 8, 15, 17}
+
+
+def op_arg(op):
+    """argument field () | (n) | (n f) | (() f) -> (n or None, f); f: where cursor position reports
+    are slipped in (bit 0: between the argument keys and the command, bit 1: after the command's first key)"""
+    a = op[1]
+    if not a:
+        return None, 0
+    n = a[0] if isinstance(a[0], int) else None
+    return n, (a[1] if len(a) > 1 else 0)
+
+
+def cpr_key():
+    from prompt_toolkit.keys import Keys
+    return _kp(Keys.CPRResponse, "\x1b[7;3R")
 
 
 def cmd_name(op):
@@ -90,6 +106,8 @@ def cmd_keys(op):
              36: [_kp("p")], 37: [_kp("P")]}
     if k in table:
         return table[k]
+    if k == 21:
+        return [cpr_key()]
     if k == 15:
         return [_kp(chr(op[2]))]
     if k in (38, 39):
@@ -164,13 +182,20 @@ def impl_case(case):
                     unmodelled = True
                 if k == 40 and not (0 <= op[2] <= len(buf.text)):
                     unmodelled = True
-                if op[1] and not unmodelled:
+                argn, cprf = op_arg(op)
+                if k == 21:
+                    unmodelled = False      # a report is delivered in every mode and state
+                if argn is not None and not unmodelled:
                     # the numeric argument is typed first (its digit handlers may move the Vi cursor)
-                    for key in arg_keys(op[1][0], vi):
+                    for key in arg_keys(argn, vi) + ([cpr_key()] if cprf & 1 else []):
                         kp.feed(key)
                         kp.process_keys()
                 before = snapshot(app, buf)
                 keys = cmd_keys(op)
+                if cprf & 2:
+                    keys = keys[:1] + [cpr_key()] + keys[1:]
+                if cprf & 1 and argn is None:
+                    keys = [cpr_key()] + keys
 
                 def go():
                     if k == 40:
@@ -225,17 +250,27 @@ class Oracle:
         self.npops = 0
         self.prev_killed = False
         self.rep_after_noop = False
+        self.tainted = False
 
     def step(self, op, before, status, after):
         k = op[0]
-        arg = op[1][0] if op[1] else 1
+        argn, _ = op_arg(op)
+        arg = argn if argn is not None else 1
         if arg >= 1000000:          # KeyPressEvent.arg: "Don't exceed a million"
             arg = 1
-        had_arg = bool(op[1])
+        had_arg = argn is not None
         t0, c0, ring0, dbp0, sel0, regs0 = unS(before[0]), before[1], before[2], before[3], before[4], before[5]
         t1, c1, ring1, dbp1, sel1, regs1 = unS(after[0]), after[1], after[2], after[3], after[4], after[5]
         name = cmd_name(op)
         if status == 7:
+            return None
+        if k == 21:
+            # a terminal report is not a command: it changes nothing, and the commands around it stay
+            # "consecutive" (no bookkeeping here)
+            if status != 0:
+                return ("a cursor position report raised (status %d)" % status, "raise")
+            if before != after:
+                return ("a cursor position report changed text, cursor, ring, selection or registers", "cpr")
             return None
         head0 = unS(ring0[0][0]) if ring0 else ""
         # is_repeat: the previous handler call was the same binding and no argument key came in between
@@ -249,9 +284,14 @@ class Oracle:
             kills = (1, 2, 3, 5, 6) + ((4,) if not sel0 else ())
             killed = ring1 != ring0
             if k in kills or (k in (4, 18) and sel0):
-                if not killed:
-                    self.kill_base = None
-                elif not (rep and self.prev_killed and self.kill_base is not None and k in (2, 3, 4, 5)):
+                accumulating = rep and self.prev_killed and k in (2, 3, 4, 5)
+                if killed and self.rep_after_noop:
+                    self.tainted = True          # the head now starts with an unrelated entry (finding C09-F1) ...
+                elif killed and not accumulating:
+                    self.tainted = False
+                if not killed or self.tainted:
+                    self.kill_base = None        # ... and so does every kill accumulated on top of it
+                elif not (accumulating and self.kill_base is not None):
                     self.kill_base = t0          # else: a run of accumulating word kills keeps its first text
             else:
                 self.kill_base = None
@@ -508,6 +548,8 @@ def oracle_case(case, trace):
         if bad:
             out.append((j, bad))
             o.kill_base = None      # a broken kill has no "text to restore"
+            if bad[1] != "kill-accumulate-after-noop":
+                o.tainted = True    # nor has anything accumulated on top of it
     return out
 
 
@@ -640,11 +682,21 @@ def rand_paste_arg(rng, vi):
     return rng.choice([[], [], [], [2], [3], [0], [-1], [-2], [5], [1000000]])
 
 
+def with_cpr(rng, arg):
+    """now and then a cursor position report arrives among the keys of a command"""
+    if rng.random() < 0.12:
+        f = rng.choice([1, 2, 3])
+        return [arg[0], f] if arg else [[], f]
+    return arg
+
+
 def rand_emacs_ops(rng, tlen, n):
     ops = []
     sel = False
     while len(ops) < n:
         r = rng.random()
+        if rng.random() < 0.08:
+            ops.append([21, []])
         if sel:
             k = rng.choice([4, 4, 18, 10, 10, 11, 12, 13, 14, 16, 9])
             if k in (4, 18, 10, 16):
@@ -653,13 +705,17 @@ def rand_emacs_ops(rng, tlen, n):
             continue
         if r < 0.45:
             k = rng.choice([1, 2, 2, 2, 3, 4, 4, 5, 5, 6])
-            ops.append([k, rand_arg(rng, 0, tlen)])
+            ops.append([k, with_cpr(rng, rand_arg(rng, 0, tlen))])
             if rng.random() < 0.5:      # consecutive identical word kills
-                ops.append([k, []])
+                if rng.random() < 0.3:  # ... with a terminal report in between
+                    ops.append([21, []])
+                ops.append([k, with_cpr(rng, [])])
         elif r < 0.6:
-            ops.append([rng.choice([7, 7, 17]), rand_paste_arg(rng, 0) if rng.random() < 0.3 else []])
+            ops.append([rng.choice([7, 7, 17]), with_cpr(rng, rand_paste_arg(rng, 0) if rng.random() < 0.3 else [])])
             for _ in range(rng.choice([0, 0, 1, 2, 3, 5, 61])):
-                ops.append([8, []])
+                if rng.random() < 0.05:
+                    ops.append([21, []])
+                ops.append([8, with_cpr(rng, [])])
         elif r < 0.65:
             ops.append([8, []])
         elif r < 0.8:
@@ -686,9 +742,11 @@ def rand_vi_ops(rng, tlen, n):
     regs = [ord(c) for c in "abz09"] + [ord("A"), ord("-")]
     for _ in range(n):
         r = rng.random()
+        if rng.random() < 0.06:
+            ops.append([21, []])
         if r < 0.3:
             k = rng.choice([31, 32, 33, 34, 35])
-            ops.append([k, rand_arg(rng, 1, tlen) if k != 33 else []])
+            ops.append([k, with_cpr(rng, rand_arg(rng, 1, tlen) if k != 33 else [])])
         elif r < 0.55:
             k = rng.choice([36, 37])
             ops.append([k, rand_paste_arg(rng, 1)])
@@ -731,6 +789,10 @@ def gen_cases(chk):
             for k in (2, 3, 4, 5):
                 add("emacs_repeat_kill_exhaustive", [0, S(t), cur, ring1, [[k, []], [k, []], [k, []], [7, []]]], pB * (0.25 if len(t) == 5 else 1))
             add("emacs_repeat_kill_exhaustive", [0, S(t), cur, ring1, [[2, []], [3, []], [7, []]]], pB * 0.3)
+            # terminal reports between two kills, between Esc and the letter, between an argument and its command
+            for k in (2, 4, 5):
+                add("emacs_kills_with_cpr", [0, S(t), cur, ring1, [[k, []], [21, []], [k, [[], 2]], [21, []], [7, []], [21, []], [8, []]]], pB * (0.1 if len(t) == 5 else 0.5))
+                add("emacs_kills_with_cpr", [0, S(t), cur, ring1, [[k, [2, 1]], [k, [[], 1]], [7, [2, 3]]]], pB * (0.06 if len(t) == 5 else 0.3))
             add("emacs_repeat_kill_exhaustive", [0, S(t), cur, ring1, [[5, [2]], [5, []], [7, []]]], pB * 0.3)
     # C. region kill / copy for every mark and point
     for t in texts_upto(ALPHA_E, 4 if thorough else 3):
@@ -739,7 +801,7 @@ def gen_cases(chk):
                 for k in (4, 18, 10):
                     add("emacs_region_exhaustive", [0, S(t), m, ring1, [[9, []], [19, [], cur], [k, []], [7, []]]])
     # D. random emacs sessions
-    for _ in range(12000 if thorough else 1200):
+    for _ in range(10000 if thorough else 1200):
         t = rand_text(rng, 30)
         ops = rand_emacs_ops(rng, len(t), rng.randint(1, 40 if thorough else 16))
         add("emacs_random_session", [0, S(t), rng.randint(0, len(t)), rand_ring(rng), ops])
@@ -800,7 +862,7 @@ def describe_trace(case, trace, upto):
     out = []
     for (op, b, st, a) in trace[:upto + 1]:
         out.append("%s%s -> status=%d text=%r cursor=%d ring=%r%s" % (
-            cmd_name(op), (" arg=%d" % op[1][0]) if op[1] else "", st, unS(a[0]), a[1],
+            cmd_name(op), (" arg=%d" % op_arg(op)[0]) if op_arg(op)[0] is not None else "", st, unS(a[0]), a[1],
             [(unS(x[0]), x[1]) for x in a[2][:4]], (" regs=%r" % [(chr(k), unS(v[0]), v[1]) for k, v in a[5]]) if a[5] else ""))
     return "; ".join(out)
 
@@ -921,7 +983,7 @@ def replay(data):
     for j, (op, before, status, after) in enumerate(trace):
         bad = o.step(op, before, status, after)
         print("  %s%s%s -> status=%d text=%r cursor=%d ring=%r regs=%r  %s" % (
-            cmd_name(op), (" arg=%d" % op[1][0]) if op[1] else "", " " + repr(op[2:]) if len(op) > 2 else "",
+            cmd_name(op), (" arg=%d" % op_arg(op)[0]) if op_arg(op)[0] is not None else "", " " + repr(op[2:]) if len(op) > 2 else "",
             status, unS(after[0]), after[1], [(unS(x[0]), x[1]) for x in after[2][:5]],
             [(chr(k), unS(v[0]), v[1]) for k, v in after[5]], ("ORACLE FAILS: " + bad[0]) if bad else "oracle ok"))
         if bad:
